@@ -25,6 +25,13 @@ type Opts struct {
 	TextBlocks bool
 	// YAMLStyles draws Layout.YAMLStyles (see AddYAMLStyles).
 	YAMLStyles bool
+	// ZeroWeights writes one in five of the written scenario weights as 0, the lower bound of the allowed range
+	// (a zero weight counts as 1, exactly as a weight that is left out: Model.Ring).
+	ZeroWeights bool
+	// YAMLOrder draws Layout.YAMLOrder (see AddYAMLOrder): the order of the keys in the YAML rendering.
+	YAMLOrder bool
+	// FileTails draws Layout.YAMLTail / HCLTail (see AddFileTails): how the two files end.
+	FileTails bool
 	// MaxSources, MaxSteps, MaxScenarios bound the sizes (0 = 3, 4, 3).
 	MaxSources, MaxSteps, MaxScenarios int
 }
@@ -378,6 +385,9 @@ func (g sgen) scenarios(stepNames []string) []Scenario {
 		s := Scenario{Name: g.name(l+".name", poolScenarioNames, used)}
 		if g.chance(l+".weight?", 65) {
 			s.Weight = ptr(factor * int64(1+uniform(g.t, l+".weight", 6)))
+			if g.opts.ZeroWeights && g.chance(l+".weight=0", 20) {
+				s.Weight = ptr(int64(0))
+			}
 		}
 		if g.chance(l+".min_waiting_time?", 50) {
 			s.MinWaitingTime = ptr(int64(rapid.SampledFrom([]int{0, 1, 10, 1000, 60000}).Draw(g.t, l+".min_waiting_time")))
@@ -449,6 +459,12 @@ func GenHTTP(t *rapid.T, o Opts) Model {
 	if o.YAMLStyles {
 		AddYAMLStyles(t, &m)
 	}
+	if o.YAMLOrder {
+		AddYAMLOrder(t, &m)
+	}
+	if o.FileTails {
+		AddFileTails(t, &m)
+	}
 	return m
 }
 
@@ -469,6 +485,12 @@ func GenGRPC(t *rapid.T, o Opts) Model {
 	}
 	if o.YAMLStyles {
 		AddYAMLStyles(t, &m)
+	}
+	if o.YAMLOrder {
+		AddYAMLOrder(t, &m)
+	}
+	if o.FileTails {
+		AddFileTails(t, &m)
 	}
 	return m
 }
